@@ -11,12 +11,50 @@ import (
 	"strings"
 )
 
+// notEmitted: attributes that only variant A has (excluded in B) are absent from B's CopyTo result,
+// at every depth (nested objects, list elements, map values).
+func (g *Gen) notEmitted(oa, ob *Occ, pre string) string {
+	name := "notEmitted_" + ob.ID
+	if !g.once(name) {
+		return name
+	}
+	var b strings.Builder
+	w := func(format string, a ...interface{}) { fmt.Fprintf(&b, "\t"+format+"\n", a...) }
+	w("_ = tf")
+	inB := map[string]*Slot{}
+	for _, s := range ob.Slots {
+		inB[s.Attr] = s
+	}
+	for _, s := range oa.Slots {
+		sb, ok := inB[s.Attr]
+		if !ok {
+			w(`{ _, has := tf.Attrs[%q]; vrt.Assert(%q+path+"/%s:excluded-not-emitted", !has) }`, s.Attr, pre, s.Attr)
+			continue
+		}
+		if s.Sub == nil || sb.Sub == nil {
+			continue
+		}
+		sub := g.notEmitted(s.Sub, sb.Sub, pre)
+		switch s.Kind {
+		case SMsg:
+			w(`if v, ok := tf.Attrs[%q].(types.Object); ok && !v.Null { %s(v, path+"/%s") }`, s.Attr, sub, s.Attr)
+		case SMsgList:
+			w(`if c, ok := tf.Attrs[%q].(types.List); ok && !c.Null { for _, e := range c.Elems { if v, ok := e.(types.Object); ok && !v.Null { %s(v, path+"/%s[]") } } }`, s.Attr, sub, s.Attr)
+		case SMsgMap:
+			w(`if c, ok := tf.Attrs[%q].(types.Map); ok && !c.Null { for _, e := range c.Elems { if v, ok := e.(types.Object); ok && !v.Null { %s(v, path+"/%s[]") } } }`, s.Attr, sub, s.Attr)
+		}
+	}
+	g.p("func %s(tf types.Object, path string) {\n%s}\n", name, b.String())
+	return name
+}
+
 func (g *Gen) harnessDiff(oa, ob *Occ, prop string) {
 	g.havocMsg(oa.Msg)
 	g.attrTypes(oa)
 	g.havocTF(oa)
 	g.tfEq(ob)
 	g.normEq(ob)
+	ne := g.notEmitted(oa, ob, prop+"/diff/")
 	name := "Harness_Diff_" + oa.MsgName
 	g.hs = append(g.hs, name)
 	pre := prop + "/diff/"
@@ -57,6 +95,7 @@ func (g *Gen) harnessDiff(oa, ob *Occ, prop string) {
 	vrt.CheckNoPanic(%q)
 	vrt.Assert(%q, !da.HasError() && !db.HasError())
 	tfEq_%s(tfa, tfb, %q, %q)
+	%s(tfb, %q)
 	src, _ := havocTF_%s(tfOpt{OneBranch: true})
 	var pa, pb %s%s
 	da2 := %sCopy%sFromTerraform(ctx, src, &pa)
@@ -68,7 +107,7 @@ func (g *Gen) harnessDiff(oa, ob *Occ, prop string) {
 }
 `, name, g.TQ, oa.MsgName, oa.MsgName, oa.ID, oa.ID,
 		g.FQ, oa.MsgName, oa.MsgName, pre+oa.MsgName+"/copyto:no-panic", pre+oa.MsgName+"/copyto:no-error-diagnostic",
-		ob.ID, pre+"to/", oa.MsgName,
+		ob.ID, pre+"to/", oa.MsgName, ne, oa.MsgName,
 		oa.ID, g.TQ, oa.MsgName, g.FQ, oa.MsgName, oa.MsgName,
 		pre+oa.MsgName+"/copyfrom:no-panic", pre+oa.MsgName+"/copyfrom:no-error-diagnostic",
 		ob.ID, pre+"from/", pre+"from/", oa.MsgName, ex.String(), oa.MsgName)
